@@ -13,6 +13,7 @@ structure ReplicaSt where
   nwire : Nat := 0
   lastOuts : List Out := []   -- effects of the last step (the cluster driver routes them)
   pfx : String := "own"     -- prefix of the names under which this replica's own objects are registered
+  sendFail : Bool := false  -- the sender has no connection to anybody: `Vote` / `NewView` answer an error
 
 def keys : Keys := { tmo := tmoKey }
 
@@ -63,6 +64,8 @@ structure SignNames where
 
 def finish (st : ReplicaSt) (c : RCfg) (res : RState × List Out) : ReplicaSt × String :=
   let (r', outs) := res
+  -- a failing sender: the message is lost, the handler logs the error, nothing else changes
+  let outs := if st.sendFail then outs.filter (fun o => match o with | .sendVote .. => false | .sendNewView .. => false | _ => true) else outs
   if outs.any (fun o => match o with | .panic => true | _ => false) then
     ({ st with r := r', lastOuts := [] }, "panic")
   else
@@ -200,7 +203,7 @@ def replicaStep (st : ReplicaSt) (toks : List String) : ReplicaSt × String :=
         | some l => if l.startsWith "fixed:" then LeaderKind.fixed ((dropStr 6 l).toNat?.getD 0) else .roundRobin
         | none => .roundRobin
       ({ st with cfg := some { n := st.w.c.cfg.n, id := r, rules := rules, agg := st.w.c.agg, scheme := st.w.c.cfg.scheme, leaders := leaders },
-                 r := {} }, "ok")
+                 r := {}, sendFail := false }, "ok")
     | _, _ => (st, "bad-op")
   | _ =>
   match st.cfg with
@@ -218,6 +221,8 @@ def replicaStep (st : ReplicaSt) (toks : List String) : ReplicaSt × String :=
       let f' := ch.fetchable.filter (fun p => p.1 != blk.hash)
       ({ st with r := { st.r with chain := { ch with fetchable := if onoff == "on" then (blk.hash, blk) :: f' else f' } } }, "ok")
     | none => (st, "bad-op")
+  | ["sender-fails", onoff] =>
+    if onoff == "on" || onoff == "off" then ({ st with sendFail := onoff == "on" }, "ok") else (st, "bad-op")
   | ["dump"] => (st, dumpR st.w c st.r)
   | "local-timeout" :: rest =>
     let v := (natField "view" rest).getD st.r.view
